@@ -266,17 +266,15 @@ def isDeletedIn : Nat → List Del → Ref → Bool
   | 0, _, _ => false
   | n + 1, ds, br => ds.any (fun d => d.target == br && !isDeletedIn n ds d.deleter)
 
-/-- the deletions recorded by `deleted|` rows (index.go:716 initDeletesCacheLocked, corpus.go:513 initDeletes) -/
-def delsOfRows : SMap Bytes → List Del
-  | [] => []
-  | ([13, t, date, d], _) :: rest => ⟨t, d, date⟩ :: delsOfRows rest
-  | _ :: rest => delsOfRows rest
+def delOfRow : Row → Option Del
+  | ([13, t, date, d], _) => some ⟨t, d, date⟩
+  | _ => none
 
-/-- the deletions a mutation map notes (`mm.deletes`, receive.go:887 after 260ba65) -/
-def delsOfMM : List Row → List Del
-  | [] => []
-  | ([13, t, date, d], _) :: rest => ⟨t, d, date⟩ :: delsOfMM rest
-  | _ :: rest => delsOfMM rest
+/-- the deletions recorded by `deleted|` rows (index.go:716 initDeletesCacheLocked, corpus.go:513 initDeletes) -/
+def delsOfRows (rows : List Row) : List Del := rows.filterMap delOfRow
+
+/-- the deletions a mutation map notes (`mm.deletes`, receive.go:887 after 260ba65: exactly its `deleted|` rows) -/
+def delsOfMM (mm : List Row) : List Del := delsOfRows mm
 
 /-! ## corpus (corpus.go) -/
 
@@ -337,11 +335,12 @@ deriving Repr
 
 def schemaRow (ver : Nat) : Row := (kSchema, [ver])
 
+def missOfRow : Row → Option (Ref × Ref)
+  | ([3, h, n], _) => some (h, n)
+  | _ => none
+
 /-- missing| rows, in key order -/
-def missingPairs : SMap Bytes → List (Ref × Ref)
-  | [] => []
-  | ([3, h, n], _) :: rest => (h, n) :: missingPairs rest
-  | _ :: rest => missingPairs rest
+def missingPairs (rows : SMap Bytes) : List (Ref × Ref) := rows.filterMap missOfRow
 
 /-- index.go:197 New over existing rows: deletes cache, then needs/neededBy from the missing| rows
 (initNeededMapsLocked no longer touches the deletes cache: 598c029) -/
@@ -394,12 +393,15 @@ def State.corpusAdd (s : State) (b : Ref) (mm : List Row) (resumed : Bool) : Sta
   | none => s
   | some c => { s with corpus := some (c.addBlob b mm resumed) }
 
-/-- camliType of the target as `GetBlobMeta` reports it (index.go:1047: through the corpus if there is one) -/
+/-- the meta row `GetBlobMeta` reads (index.go:1047: through the corpus if there is one) -/
+def State.metaRow (s : State) (t : Ref) : Option Bytes :=
+  match s.corpus with
+  | some c => SMap.get c.m (kMeta t)
+  | none => SMap.get s.rows (kMeta t)
+
+/-- camliType of the target as `GetBlobMeta` reports it -/
 def State.metaType (s : State) (t : Ref) : Option Nat :=
-  let row := match s.corpus with
-    | some c => SMap.get c.m (kMeta t)
-    | none => SMap.get s.rows (kMeta t)
-  match row with
+  match s.metaRow t with
   | some (_ :: tc :: _) => some tc
   | some _ => some 0
   | none => none
